@@ -219,6 +219,18 @@ pub fn initial_images(g: &Geo, which: &[&str]) -> Vec<ImageSet> {
                 s.comp_pad = (g.cs() - 8) as usize;
                 out.push(from_specs(&format!("{}-compressed-straddle", g.name), "compressed", vec![s]));
             }
+            "compressed-ragged" => {
+                // the file ends right after the last compressed stream (a multiple of 512, not of
+                // bigger block sizes), and the last data cluster is only partly inside the file
+                let mut s = base(0xB00000);
+                s.kinds = vec![GKind::Unalloc; ncl];
+                s.kinds[0] = GKind::Data;
+                s.kinds[1] = GKind::Compressed;
+                s.kinds[2] = GKind::Compressed;
+                s.refcount_last = false;
+                s.ragged_end = true;
+                out.push(from_specs(&format!("{}-compressed-ragged", g.name), "compressed", vec![s]));
+            }
             "compressed-boundary" => {
                 let mut s = base(0xB00000);
                 s.kinds = vec![GKind::Unalloc; ncl];
